@@ -353,7 +353,9 @@ class IntervalTier(textgrid_tier.TextgridTier):
                     newTier.insertEntry(newEntry)
 
         if doShrink is True:
-            diff = end - start
+            # Later entries are moved to start + (time - end) rather than
+            # time - (end - start): this maps /end/ onto /start/ exactly and
+            # can never round to a time before /start/
             newEntryList = []
             for interval in newTier.entries:
                 if interval.end <= start:
@@ -361,7 +363,9 @@ class IntervalTier(textgrid_tier.TextgridTier):
                 elif interval.start >= end:
                     newEntryList.append(
                         Interval(
-                            interval.start - diff, interval.end - diff, interval.label
+                            start + (interval.start - end),
+                            start + (interval.end - end),
+                            interval.label,
                         )
                     )
 
@@ -386,7 +390,7 @@ class IntervalTier(textgrid_tier.TextgridTier):
                     # so if we've found it, move on
                     break
 
-            newMax = newTier.maxTimestamp - diff
+            newMax = start + (newTier.maxTimestamp - end)
             newTier = newTier.new(entries=newEntryList, maxTimestamp=newMax)
 
         return newTier
